@@ -71,11 +71,11 @@ Create HintDb nf.
 (* a hypothesis [x = OutOfFuel] on a call known never to run out of fuel *)
 Ltac nf_absurd :=
   match goal with
-  | H : ?x = OutOfFuel |- _ =>
-    exfalso; revert H; change (x <> OutOfFuel)
   | H : ?x = (_, OutOfFuel) |- _ =>
     exfalso; assert (snd x <> OutOfFuel) as K by (solve [auto with nf]);
     rewrite H in K; exact (K eq_refl)
+  | H : ?x = OutOfFuel |- _ =>
+    assert_fails (is_var x); exfalso; revert H; change (x <> OutOfFuel)
   end.
 
 Ltac nf_step :=
@@ -277,3 +277,268 @@ Section Generic.
   Hint Resolve modularity_nf : nf.
 
 End Generic.
+
+#[global] Hint Resolve get_node_index_nf get_node_nf get_edge_by_indexes_nf get_edge_nf add_node_nf add_nodes_nf
+  add_to_adjacency_vec_nf link_adjacency_nf add_edge_known_nf add_edge_nf add_edges_nf
+  new_from_nodes_and_edges_nf get_subgraph_nf set_all_edge_weights_nf to_single_edges_nf
+  collect_groups_nf node_is_none_nf get_edges_for_node_nf get_in_edges_for_node_nf get_out_edges_for_node_nf
+  get_node_degree_nf get_node_in_degree_nf get_node_out_degree_nf get_node_weighted_degree_nf
+  get_node_weighted_in_degree_nf get_node_weighted_out_degree_nf
+  get_degree_for_all_nodes_nf get_in_degree_for_all_nodes_nf get_out_degree_for_all_nodes_nf
+  get_weighted_degree_for_all_nodes_nf get_weighted_in_degree_for_all_nodes_nf
+  get_weighted_out_degree_for_all_nodes_nf
+  is_partition_scan_nf is_partition_nf sum_over_nf modularity_nf : nf.
+
+(* ---------------- 6. the fuel-free parts of Model/Louvain.v ---------------- *)
+
+Lemma q_of_w_nf : forall site w, q_of_w site w <> OutOfFuel.
+Proof. intros site w. unfold q_of_w. nf. Qed.
+#[global] Hint Resolve q_of_w_nf : nf.
+
+Lemma wmap_q_nf : forall m, wmap_q m <> OutOfFuel.
+Proof. intros m. unfold wmap_q. nf. Qed.
+#[global] Hint Resolve wmap_q_nf : nf.
+
+Lemma get_degree_information_nf : forall g partition, get_degree_information g partition <> OutOfFuel.
+Proof. intros g partition. unfold get_degree_information. nf. Qed.
+#[global] Hint Resolve get_degree_information_nf : nf.
+
+Lemma vec_get_nf : forall site v i, vec_get site v i <> OutOfFuel.
+Proof. intros site v i. unfold vec_get. nf. Qed.
+#[global] Hint Resolve vec_get_nf : nf.
+
+Lemma vec_add_nf : forall site v i d, vec_add site v i d <> OutOfFuel.
+Proof. intros site v i d. unfold vec_add. nf. Qed.
+#[global] Hint Resolve vec_add_nf : nf.
+
+Lemma subtract_degree_from_best_com_nf : forall best_com u di dir,
+  subtract_degree_from_best_com best_com u di dir <> OutOfFuel.
+Proof. intros best_com u di dir. unfold subtract_degree_from_best_com. nf. Qed.
+#[global] Hint Resolve subtract_degree_from_best_com_nf : nf.
+
+Lemma add_degree_to_best_com_nf : forall best_com di dir, add_degree_to_best_com best_com di dir <> OutOfFuel.
+Proof. intros best_com di dir. unfold add_degree_to_best_com. nf. Qed.
+#[global] Hint Resolve add_degree_to_best_com_nf : nf.
+
+Lemma neighbor_weights_into_nf : forall g u nbrs node2com towards acc0,
+  neighbor_weights_into g u nbrs node2com towards acc0 <> OutOfFuel.
+Proof. intros g u nbrs node2com towards acc0. unfold neighbor_weights_into. nf. Qed.
+#[global] Hint Resolve neighbor_weights_into_nf : nf.
+
+Lemma get_neighbor_weights_nf : forall g u nbrs node2com, get_neighbor_weights g u nbrs node2com <> OutOfFuel.
+Proof. intros g u nbrs node2com. unfold get_neighbor_weights. nf. Qed.
+#[global] Hint Resolve get_neighbor_weights_nf : nf.
+
+Lemma add_predecessor_weights_nf : forall g u preds node2com w2c,
+  add_predecessor_weights g u preds node2com w2c <> OutOfFuel.
+Proof. intros g u preds node2com w2c. unfold add_predecessor_weights. nf. Qed.
+#[global] Hint Resolve add_predecessor_weights_nf : nf.
+
+Lemma gain_of_nf : forall di m resolution dir c wt, gain_of di m resolution dir c wt <> OutOfFuel.
+Proof. intros di m resolution dir c wt. unfold gain_of. nf. Qed.
+#[global] Hint Resolve gain_of_nf : nf.
+
+Lemma scan_candidates_nf : forall di m resolution dir cands best_com best_mod seen,
+  scan_candidates di m resolution dir cands best_com best_mod seen <> OutOfFuel.
+Proof.
+  intros di m resolution dir cands. induction cands as [|[c wt] t IH]; intros best_com best_mod seen;
+    cbn [scan_candidates]; nf.
+Qed.
+#[global] Hint Resolve scan_candidates_nf : nf.
+
+Lemma update_best_com_nf : forall own w2c di m resolution dir,
+  update_best_com own w2c di m resolution dir <> OutOfFuel.
+Proof. intros own w2c di m resolution dir. unfold update_best_com. nf. Qed.
+#[global] Hint Resolve update_best_com_nf : nf.
+
+Lemma upd_nth_nf : forall {X} site i (f : X -> X) l, upd_nth site i f l <> OutOfFuel.
+Proof. intros X site i f l. unfold upd_nth. nf. Qed.
+#[global] Hint Resolve upd_nth_nf : nf.
+
+Lemma visit_nf : forall g m res nbrs preds s u, visit g m res nbrs preds s u <> OutOfFuel.
+Proof. intros g m res nbrs preds s u. unfold visit. nf. Qed.
+#[global] Hint Resolve visit_nf : nf.
+
+(* one pass of the sweep loop's body over the shuffled nodes *)
+Lemma sweep_pass_nf : forall g m res nbrs preds order s,
+  ofold (visit g m res nbrs preds) order s <> OutOfFuel.
+Proof. intros g m res nbrs preds order s. nf. Qed.
+#[global] Hint Resolve sweep_pass_nf : nf.
+
+Lemma get_shuffled_node_names_nf : forall g perms, get_shuffled_node_names g perms <> OutOfFuel.
+Proof. intros g perms. unfold get_shuffled_node_names. nf. Qed.
+#[global] Hint Resolve get_shuffled_node_names_nf : nf.
+
+Lemma generate_graph_nf : forall g I, generate_graph g I <> OutOfFuel.
+Proof.
+  intros g I. unfold generate_graph. nf.
+Qed.
+#[global] Hint Resolve generate_graph_nf : nf.
+
+Lemma size_q_nf : forall g weighted, size_q g weighted <> OutOfFuel.
+Proof. intros g weighted. unfold size_q. nf. Qed.
+#[global] Hint Resolve size_q_nf : nf.
+
+Section Entry.
+  Context {T A : Type}.
+  Variable teqb : T -> T -> bool.
+  Variable tltb : T -> T -> bool.
+
+  Lemma convert_graph_nf : forall (g : gstate T A) weighted node_map,
+    convert_graph teqb tltb g weighted node_map <> OutOfFuel.
+  Proof. intros g weighted node_map. unfold convert_graph. nf. Qed.
+
+  Lemma convert_back_nf : forall (node_map : list (T * nat)) levels, convert_back node_map levels <> OutOfFuel.
+  Proof. intros node_map levels. unfold convert_back. nf. Qed.
+End Entry.
+#[global] Hint Resolve convert_graph_nf convert_back_nf : nf.
+
+(* ---------------- 7. where OutOfFuel comes from ---------------- *)
+
+(* one round of the sweep loop: out of fuel only through the recursive call *)
+Theorem sweeps_fuel_cases : forall f g m res nbrs preds order s,
+  sweeps (S f) g m res nbrs preds order s = OutOfFuel ->
+  exists s1,
+    ofold (visit g m res nbrs preds) order
+          (mkls (ls_partition s) (ls_inner s) (ls_node2com s) (ls_deg s) 0 (ls_improved s) (ls_tie s)) = Ok s1 /\
+    Nat.eqb (ls_moves s1) 0 = false /\
+    sweeps f g m res nbrs preds order s1 = OutOfFuel.
+Proof.
+  intros f g m res nbrs preds order s H. cbn [sweeps] in H.
+  apply bind_fuel_inv in H. destruct H as [H|[s1 [Hs1 H]]].
+  - exfalso. exact (sweep_pass_nf _ _ _ _ _ _ _ H).
+  - exists s1. destruct (Nat.eqb (ls_moves s1) 0) eqn:E; [discriminate|]. auto.
+Qed.
+
+Theorem compute_one_level_state_fuel_only_from_sweeps :
+  forall fuel g m partition res perms,
+    compute_one_level_state fuel g m partition res perms = OutOfFuel ->
+    exists di order,
+      get_degree_information g partition = Ok di /\ get_shuffled_node_names g perms = Ok order /\
+      sweeps fuel g m res (successors g) (predecessors g) order
+        (mkls partition (map_node_names_to_hashsets g)
+              (map (fun n => (n, n)) (sort_by Nat.ltb (map nname (get_all_nodes g)))) di 1 false false)
+      = OutOfFuel.
+Proof.
+  intros fuel g m partition res perms H. unfold compute_one_level_state in H.
+  apply bind_fuel_inv in H. destruct H as [H|[di [Hdi H]]].
+  { exfalso. exact (get_degree_information_nf _ _ H). }
+  apply bind_fuel_inv in H. destruct H as [H|[order [Hord H]]].
+  { exfalso. exact (get_shuffled_node_names_nf _ _ H). }
+  exists di, order. auto.
+Qed.
+
+Theorem compute_one_level_fuel_only_from_sweeps :
+  forall fuel g m partition res perms,
+    compute_one_level fuel g m partition res perms = OutOfFuel ->
+    exists di order,
+      get_degree_information g partition = Ok di /\ get_shuffled_node_names g perms = Ok order /\
+      sweeps fuel g m res (successors g) (predecessors g) order
+        (mkls partition (map_node_names_to_hashsets g)
+              (map (fun n => (n, n)) (sort_by Nat.ltb (map nname (get_all_nodes g)))) di 1 false false)
+      = OutOfFuel.
+Proof.
+  intros fuel g m partition res perms H. unfold compute_one_level in H.
+  apply bind_fuel_inv in H. destruct H as [H|[s [_ H]]]; [|discriminate].
+  exact (compute_one_level_state_fuel_only_from_sweeps _ _ _ _ _ _ H).
+Qed.
+
+(* and conversely *)
+Theorem compute_one_level_fuel_iff_state : forall fuel g m partition res perms,
+  compute_one_level fuel g m partition res perms = OutOfFuel <->
+  compute_one_level_state fuel g m partition res perms = OutOfFuel.
+Proof.
+  intros fuel g m partition res perms. unfold compute_one_level. split; intro H.
+  - apply bind_fuel_inv in H. destruct H as [H|[s [_ H]]]; [exact H | discriminate].
+  - rewrite H. reflexivity.
+Qed.
+
+Theorem level_loop_fuel_cases :
+  forall f sf weighted res thr perms m graphu partition inner mod0 acc tie,
+    level_loop (S f) sf weighted res thr perms m graphu partition inner mod0 acc tie = OutOfFuel ->
+    exists new_mod g2,
+      modularity Nat.eqb Nat.ltb graphu inner weighted res = Ok new_mod /\
+      fst (gain_small new_mod mod0 thr) = false /\
+      generate_graph graphu inner = Ok g2 /\
+      (compute_one_level sf g2 m partition res perms = OutOfFuel \/
+       exists p2 i2 tie2,
+         compute_one_level sf g2 m partition res perms = Ok (p2, i2, true, tie2) /\
+         level_loop f sf weighted res thr perms m g2 p2 i2 new_mod (acc ++ [partition])
+                    (tie || snd (gain_small new_mod mod0 thr) || tie2) = OutOfFuel).
+Proof.
+  intros f sf weighted res thr perms m graphu partition inner mod0 acc tie H.
+  cbn [level_loop] in H.
+  apply bind_fuel_inv in H. destruct H as [H|[new_mod [Hmod H]]].
+  { exfalso. apply unwrap_res_fuel_inv in H. exact (modularity_nf _ _ _ _ _ _ H). }
+  apply unwrap_res_ok_inv in Hmod.
+  exists new_mod.
+  destruct (gain_small new_mod mod0 thr) as [small close] eqn:G. cbn [fst snd].
+  destruct small; [discriminate|].
+  apply bind_fuel_inv in H. destruct H as [H|[g2 [Hg2 H]]].
+  { exfalso. exact (generate_graph_nf _ _ H). }
+  exists g2. split; [exact Hmod|]. split; [reflexivity|]. split; [exact Hg2|].
+  apply bind_fuel_inv in H. destruct H as [H|[z [Hz H]]]; [left; exact H|].
+  right. destruct z as [[[p2 i2] improvement] tie2].
+  destruct improvement; [|discriminate].
+  exists p2, i2, tie2. split; [exact Hz | exact H].
+Qed.
+
+Theorem level_loop_fuel_zero :
+  forall sf weighted res thr perms m graphu partition inner mod0 acc tie,
+    level_loop 0 sf weighted res thr perms m graphu partition inner mod0 acc tie = OutOfFuel.
+Proof. reflexivity. Qed.
+
+Section EntryFuel.
+  Context {T A : Type}.
+  Variable teqb : T -> T -> bool.
+  Variable tltb : T -> T -> bool.
+
+  Theorem louvain_partitions_t_fuel_cases :
+    forall lf sf (g : gstate T A) weighted res thr perms,
+      louvain_partitions_t teqb tltb lf sf g weighted res thr perms = OutOfFuel ->
+      exists graphu modularity0 m,
+        convert_graph teqb tltb g weighted (node_map_of tltb g) = Ok graphu /\
+        modularity Nat.eqb Nat.ltb graphu (map_node_names_to_hashsets graphu) weighted res = Ok modularity0 /\
+        size_q graphu weighted = Ok m /\
+        (compute_one_level sf graphu m (map_node_names_to_hashsets graphu) res perms = OutOfFuel \/
+         exists p1 i1 b tie1,
+           compute_one_level sf graphu m (map_node_names_to_hashsets graphu) res perms = Ok (p1, i1, b, tie1) /\
+           level_loop lf sf weighted res thr perms m graphu p1 i1 modularity0 [] tie1 = OutOfFuel).
+  Proof.
+    intros lf sf g weighted res thr perms H. unfold louvain_partitions_t in H.
+    apply bind_fuel_inv in H. destruct H as [H|[graphu [Hgu H]]].
+    { exfalso. exact (convert_graph_nf _ _ _ _ _ H). }
+    apply bind_fuel_inv in H. destruct H as [H|[modularity0 [Hmod H]]].
+    { exfalso. apply unwrap_res_fuel_inv in H. exact (modularity_nf _ _ _ _ _ _ H). }
+    apply unwrap_res_ok_inv in Hmod.
+    apply bind_fuel_inv in H. destruct H as [H|[m [Hm H]]].
+    { exfalso. exact (size_q_nf _ _ H). }
+    exists graphu, modularity0, m.
+    split; [exact Hgu|]. split; [exact Hmod|]. split; [exact Hm|].
+    apply bind_fuel_inv in H. destruct H as [H|[z [Hz H]]]; [left; exact H|].
+    right. destruct z as [[[p1 i1] b] tie1]. exists p1, i1, b, tie1. split; [exact Hz|].
+    apply bind_fuel_inv in H. destruct H as [H|[r [_ H]]]; [exact H|].
+    exfalso. destruct r as [levels tie].
+    apply bind_fuel_inv in H. destruct H as [H|[ls [_ H]]]; [|discriminate].
+    exact (convert_back_nf _ _ H).
+  Qed.
+
+  Theorem louvain_partitions_fuel_inv : forall lf sf (g : gstate T A) weighted res thr perms,
+    louvain_partitions teqb tltb lf sf g weighted res thr perms = OutOfFuel ->
+    louvain_partitions_t teqb tltb lf sf g weighted res thr perms = OutOfFuel.
+  Proof.
+    intros lf sf g weighted res thr perms H. unfold louvain_partitions in H.
+    apply bind_fuel_inv in H. destruct H as [H|[r [_ H]]]; [exact H | discriminate].
+  Qed.
+
+  Theorem louvain_communities_fuel_inv : forall lf sf (g : gstate T A) weighted res thr perms,
+    louvain_communities teqb tltb lf sf g weighted res thr perms = OutOfFuel ->
+    louvain_partitions_t teqb tltb lf sf g weighted res thr perms = OutOfFuel.
+  Proof.
+    intros lf sf g weighted res thr perms H. unfold louvain_communities in H.
+    apply bind_fuel_inv in H. destruct H as [H|[ps [_ H]]].
+    - exact (louvain_partitions_fuel_inv _ _ _ _ _ _ _ H).
+    - destruct (pop ps); discriminate.
+  Qed.
+End EntryFuel.
+
